@@ -296,6 +296,38 @@ def r4_description_protocol(chk: Check) -> None:
         chk.undecided("C03.R4", "<discovery>", f"consumers={n}", "fewer description consumers than confirmed by hand")
 
 
+def _truncating_divisions(root: ast.AST) -> list[ast.Call]:
+    """`int(a / b)`, `math.trunc(a / b)`, `round(a / b)`: quotients rounded toward zero / to nearest instead of floored."""
+    out = []
+    for c in ast.walk(root):
+        if isinstance(c, ast.Call) and dotted(c.func) in ("int", "math.trunc", "trunc", "round") and c.args and isinstance(c.args[0], ast.BinOp) and isinstance(c.args[0].op, ast.Div):
+            out.append(c)
+    return out
+
+
+def r6_floor_arithmetic(chk: Check) -> None:
+    chk.rule("C03.R6", "SIBLINGS-AGREE(rounding in boundary arithmetic): multiples of `multipleOf` next to a bound are computed with floor arithmetic (`//`, `%`, `divmod`) as the existing helpers do; a quotient truncated toward zero (`int(a / b)`) lands beyond a NEGATIVE bound and the value is still labelled positive", floor=2)
+    P = chk.project
+    mod = P.module(COV)
+    n = 0
+    for q, f in mod.functions.items():
+        uses_multiple = any(isinstance(x, ast.Name) and "multiple" in x.id for x in ast.walk(f.node)) or "multiple" in q
+        if not uses_multiple:
+            continue
+        bad = _truncating_divisions(f.node)
+        floors = [x for x in ast.walk(f.node) if (isinstance(x, ast.BinOp) and isinstance(x.op, (ast.FloorDiv, ast.Mod))) or (isinstance(x, ast.Call) and dotted(x.func) == "divmod")]
+        for c in bad:
+            n += 1
+            chk.violation("C03.R6", f, f"{unparse(c, 50)}", "the quotient is truncated toward zero: for a negative bound that is not itself a multiple the computed 'largest multiple <= maximum' is GREATER than the maximum (e.g. maximum=-5, multipleOf=3 gives -3), and that value is produced as a positive 'Maximum value' case", f.loc(c))
+        if floors and not bad:
+            n += 1
+            chk.ok("C03.R6", f, "floor arithmetic (// % divmod) for multiples", f"{len(floors)} site(s)", f.loc())
+    fixture = ast.parse("def closest_multiple_less_than(y, x):\n    return x * int(y / x)\n")
+    chk.decide(len(_truncating_divisions(fixture)) == 1, "C03.R6", "<fixture>", "positive fixture: int(y / x) is recognised", "the matcher no longer recognises the defect shape (vacuous pass)", "<fixture>")
+    if n < 1:
+        chk.undecided("C03.R6", "<discovery>", f"sites={n}", "no multiple-of arithmetic found in coverage.py")
+
+
 def r5_documented_methods(chk: Check) -> None:
     from . import shared
 
@@ -303,4 +335,4 @@ def r5_documented_methods(chk: Check) -> None:
 
 
 def rules(tier: str) -> list:  # type: ignore[type-arg]
-    return [r1_label_source, r2_yield_discipline, r3_bound_presence, r4_description_protocol, r5_documented_methods]
+    return [r1_label_source, r2_yield_discipline, r3_bound_presence, r4_description_protocol, r5_documented_methods, r6_floor_arithmetic]
